@@ -9,7 +9,7 @@ mkdir -p $OUT
 ALL=$(/venv/bin/python -c "import json;print(' '.join(c['property_id'] for c in json.load(open('MANIFEST.json'))['checks']))")
 echo "{" > seeded/MATRIX.tmp
 first=1
-for d in seeded/C*-*/; do
+for d in ${DIRS:-seeded/C*-*/}; do
   name=$(basename $d); own=${name%%-*}
   git -C $W checkout -q -- . ; git -C $W apply $(pwd)/$d/patch.diff 2>/dev/null || { echo "$name: patch does not apply" >&2; continue; }
   if [ "$MODE" = all ]; then ids=$ALL; else ids=$own; fi
@@ -24,4 +24,4 @@ for d in seeded/C*-*/; do
 done
 echo "}" >> seeded/MATRIX.tmp
 git -C /repo worktree remove --force $W; rm -rf $OUT
-mv seeded/MATRIX.tmp seeded/MATRIX-$MODE.json
+mv seeded/MATRIX.tmp seeded/MATRIX-$MODE${SUFFIX:-}.json
